@@ -448,9 +448,40 @@ func c13Seq(c *core.Ctx) {
 		prefix = []int{c.Index}
 	}
 	n, steps := 0, 0
+	// three runs in four use an interface-typed source on which some values are nil interfaces (legal values):
+	// a nil is then identified by its position (the model is deterministic), anything else by its id
+	runNo := 0
 	run := func(seq []int) {
-		src := make(chan int, len(seq)+1)
-		ch, err := bigbuff.NewChannel(nil, time.Millisecond, src)
+		runNo++
+		pattern := runNo % 4 // 0: chan int source; 1: odd ids are nil; 2: even ids are nil; 3: every value is nil
+		withNils := pattern != 0
+		isNil := func(id int) bool {
+			return pattern == 3 || (pattern == 1 && id%2 == 1) || (pattern == 2 && id%2 == 0)
+		}
+		decode := func(v interface{}, expected int) int {
+			if v == nil {
+				if isNil(expected) {
+					return expected
+				}
+				return -1
+			}
+			n, ok := v.(int)
+			if !ok || isNil(n) {
+				return -1
+			}
+			return n
+		}
+		var src chan interface{}
+		var srcInt chan int
+		var source interface{}
+		if withNils {
+			src = make(chan interface{}, len(seq)+1)
+			source = src
+		} else {
+			srcInt = make(chan int, len(seq)+1)
+			source = srcInt
+		}
+		ch, err := bigbuff.NewChannel(nil, time.Millisecond, source)
 		if err != nil {
 			c.Violate("newchannel-error", "%v", err)
 			return
@@ -464,7 +495,14 @@ func c13Seq(c *core.Ctx) {
 			switch a {
 			case aFeed:
 				fedN++
-				src <- fedN
+				switch {
+				case !withNils:
+					srcInt <- fedN
+				case isNil(fedN):
+					src <- nil
+				default:
+					src <- fedN
+				}
 				trace = append(trace, "feed")
 				continue
 			case aGet:
@@ -476,7 +514,11 @@ func c13Seq(c *core.Ctx) {
 				if err != nil {
 					out.Err = err.Error()
 				} else {
-					out.Val, _ = v.(int)
+					expected := st.committed + st.buffered + 1
+					if st.rollback > 0 {
+						expected = st.committed + st.buffered - st.rollback + 1
+					}
+					out.Val = decode(v, expected)
 				}
 			case aCommit:
 				in.Kind = chCommit
@@ -490,7 +532,9 @@ func c13Seq(c *core.Ctx) {
 				}
 			case aBuffer:
 				in.Kind = chBuffer
-				out.Vals, _ = toInts(ch.Buffer())
+				for i, v := range ch.Buffer() {
+					out.Vals = append(out.Vals, decode(v, st.committed+1+i))
+				}
 			}
 			steps++
 			trace = append(trace, describeChOp(in, out))
@@ -505,7 +549,7 @@ func c13Seq(c *core.Ctx) {
 				return
 			}
 		}
-		if left := len(src); st.committed+st.buffered+left != fedN {
+		if left := len(src) + len(srcInt); st.committed+st.buffered+left != fedN {
 			c.Violate("conservation", "fed=%d but committed=%d + pending=%d + left=%d; trace=%v", fedN, st.committed, st.buffered, left, trace)
 		}
 	}
@@ -523,7 +567,7 @@ func c13Seq(c *core.Ctx) {
 	rec(prefix)
 	c.Op("seq_step", steps)
 	c.Count("sequences", n)
-	c.ExhaustiveFamily(fmt.Sprintf("all sequences of length<=%d over {feed,Get,Commit,Rollback,Buffer}", L), n)
+	c.ExhaustiveFamily(fmt.Sprintf("all sequences of length<=%d over {feed,Get,Commit,Rollback,Buffer} (in turn on a chan int source and on chan interface{} sources where the odd / the even / all values are nil interfaces)", L), n)
 	c.Nontrivial()
 	c.Sig("c13seq", c.Index, n)
 }
